@@ -1072,8 +1072,25 @@ func GenK(t *rapid.T, prop string) *KCase {
 		}
 	}
 	d0 := rapid.SampledFrom([]string{"d0", "d0", "ld0", "./d0/"}).Draw(t, "d0spelling")
-	steps := []KStep{{K: "add", P: engine.P(d0)}}
-	if rapid.Bool().Draw(t, "addd1") {
+	var steps []KStep
+	// inner path first: an entry (file or subdirectory) is watched by the user
+	// before the directory that contains it
+	innerFirst := ""
+	if engine.Pct(t, "innerfirst", 15) {
+		var ents []string
+		for p, k := range kind {
+			if (k == 'f' || k == 'd') && strings.HasPrefix(p, "d1/") && strings.Count(p, "/") == 1 {
+				ents = append(ents, p)
+			}
+		}
+		sort.Strings(ents)
+		if len(ents) > 0 {
+			innerFirst = rapid.SampledFrom(ents).Draw(t, "innerfirst-entry")
+			steps = append(steps, KStep{K: "add", P: engine.P(innerFirst)}, KStep{K: "add", P: "d1"})
+		}
+	}
+	steps = append(steps, KStep{K: "add", P: engine.P(d0)})
+	if innerFirst == "" && rapid.Bool().Draw(t, "addd1") {
 		steps = append(steps, KStep{K: "add", P: "d1"})
 	}
 	// nested watched directory: a subdirectory of d0 that the user adds as well
